@@ -5,6 +5,7 @@
 (*   call  - a run starts (configuration)                                  *)
 (*   ode / jac / ev - the code evaluated f / the Jacobian / the events     *)
 (*   cb    - a SolOut callback of a low-level solver (recording SolOut)    *)
+(*   hk    - a decision point reported through the hook (see Trace_Radau)  *)
 (*   gap   - summary of elided events of a very long run                   *)
 (*   ret | abort - the run returned / was cut by budget or panicked        *)
 (*   pair  - two finished runs related by a relational clause              *)
@@ -23,7 +24,7 @@ NoCall == [id |-> 0]
 A0 == [ nOde |-> 0, nOdeJ |-> 0, nJac |-> 0, nEv |-> 0, nCb |-> 0,
         evalOut |-> 0, maxEval |-> -1,
         lastX |-> -1, lastXb |-> "", interrupted |-> FALSE, afterStop |-> 0,
-        modPending |-> "", modBad |-> 0, cbBad |-> 0, ipBad |-> 0, active |-> FALSE,
+        modPending |-> "", modBad |-> 0, cbBad |-> 0, ipBad |-> 0, rsBad |-> 0, rsSeen |-> 0, active |-> FALSE,
         recent |-> {}, needDeriv |-> "", derivBad |-> 0,
         \* Level B (Stepper.tla) conformance for the explicit solvers on low-level runs:
         iv |-> <<>>,            \* ranks of the stepper evaluations since the last callback
@@ -76,6 +77,9 @@ TraceEv ==
     /\ A' = [A EXCEPT !.nEv = @ + 1, !.evalOut = @ + Out(Rec[l].r)]
     /\ UNCHANGED C
 
+\* decision points reported by the solver through the verification hook: consumed by Trace_Radau, skipped here
+TraceHk == IsEvent("hk") /\ UNCHANGED <<C, A>>
+
 X2AtZero == \E j \in 1..Len(C.script) : C.script[j].k = 0 /\ C.script[j].action = "modify_x2"
 
 (* ---- Level B attempt grammars of the implicit solvers (ranks of the stepper evaluations between two callbacks) *)
@@ -114,6 +118,9 @@ TraceCb ==
                       /\ (C.lowdense => e.hasip) /\ e.ip.b_ok   \* interpolant valid on exactly that interval
            ok == IF first THEN okFirst ELSE okStep
            ipok == first \/ ~e.hasip \/ (e.ip.l_ok /\ e.ip.r_ok /\ (e.ip.fin \/ ~e.fin))
+           \* the interpolant of a step is a function of that step alone: a fresh solver redoing the step from
+           \* (xold, yold) hands out the same polynomial (restart probe of the recorder, explicit methods)
+           rsok == first \/ ~e.hasip \/ e.ip.rs_ok
            \* the derivative a step starts from is f at the accepted state it starts from: the one-step methods must
            \* have evaluated f(x_k, y_k) - before handing step k to SolOut or afterwards - by the time step k+1 is
            \* accepted (BDF works on differences instead)
@@ -157,6 +164,8 @@ TraceCb ==
        IN A' = [A EXCEPT !.nCb = @ + 1,
                          !.cbBad = IF ok THEN @ ELSE @ + 1,
                          !.ipBad = IF ipok THEN @ ELSE @ + 1,
+                         !.rsBad = IF rsok THEN @ ELSE @ + 1,
+                         !.rsSeen = IF ~first /\ e.hasip /\ e.ip.rs THEN @ + 1 ELSE @,
                          !.derivBad = IF derivok THEN @ ELSE @ + 1,
                          !.recent = {}, !.needDeriv = need,
                          !.iv = <<>>, !.prevMod = (e.ret = "Modified"), !.gapped = FALSE,
@@ -178,7 +187,7 @@ TraceGap ==
     /\ IsEvent("gap")
     /\ LET e == Rec[l] IN
        A' = [A EXCEPT !.nOde = @ + e.n_ode, !.nOdeJ = @ + e.n_odej, !.nJac = @ + e.n_jac, !.nEv = @ + e.n_ev,
-                      !.nCb = @ + e.n_cb,
+                      !.nCb = @ + e.n_cb, !.rsBad = @ + e.rs_bad,
                       !.recent = {}, !.needDeriv = "", !.iv = <<>>, !.gapped = TRUE, !.everGapped = TRUE, !.modPending = "", !.bdfOrd = 0, !.bdfRun = 0,
                       !.evalOut = @ + Out(e.rmin) + Out(e.rmax),
                       !.maxEval = IF e.rmax > @ THEN e.rmax ELSE @]
@@ -194,6 +203,7 @@ TraceRet ==
        /\ Viol("C05", "recorded", C05_Recorded(C, R))
        /\ Viol("C06", "solution", C06_Solution(C, R))
        /\ Viol("C06", "callback_interpolant", C06_Callback(A))
+       /\ Viol("C07", "restart", A.rsBad = 0)         \* every step's interpolant equals the one a fresh solver builds for that step
        /\ Viol("C08", "recorded", C08_Recorded(C, R))
        /\ Viol("C08", "direction", C08_Direction(C, R))
        /\ Viol("C09", "recorded", C09_Recorded(C, R))
@@ -202,8 +212,9 @@ TraceRet ==
        /\ Viol("C11", "options", C11_Options(C, R))
        /\ Viol("C18", "counters", C18_Counters(C, A, R))
        /\ Viol("C18", "intervals", C18_Intervals(C, R))
+       /\ Viol("C15", "dae", C15_Dae(C, R))
        /\ Viol("C19", "protocol", C19_Protocol(C, A, R))
-       /\ Viol("C19", "interpolant", IsLow(R) => C06_Callback(A))   \* "passing an interpolant valid on that interval"
+       /\ Viol("C19", "interpolant", IsLow(R) => (C06_Callback(A) /\ A.rsBad = 0))   \* "passing an interpolant valid on that interval"
        \* Level B conformance (drift, never a violation): attempt structure and the counters the model predicts
        /\ LET lb == C.method \in {"RK4", "RK23", "DOPRI5", "DOP853"} /\ C.api = "low" /\ R.kind = "low"
                       /\ ~(\E j \in 1..Len(C.script) : C.script[j].action = "xout")
@@ -249,7 +260,7 @@ TracePair ==
                   [] OTHER                      -> PViol(p, Rel_EqualCb(Ra, Rb) /\ Ra.oded = Rb.oded)   \* double_from:k (states mapped back by the recorder)
     /\ UNCHANGED <<C, A>>
 
-TraceNext == TraceCall \/ TraceOde \/ TraceJac \/ TraceEv \/ TraceCb \/ TraceGap \/ TraceRet \/ TraceAbort \/ TracePair
+TraceNext == TraceCall \/ TraceOde \/ TraceJac \/ TraceEv \/ TraceHk \/ TraceCb \/ TraceGap \/ TraceRet \/ TraceAbort \/ TracePair
 TraceSpec == TraceInit /\ [][TraceNext]_tvars
 
 TraceAccepted ==
